@@ -1,8 +1,9 @@
 //! C16 — label ordering is a total order equal to CBOR's deterministic key ordering.
 
-use crate::cbor::{cmp_len_first, cmp_lex, head};
+use crate::cbor::{cmp_len_first, cmp_lex};
 use crate::props::segment;
 use crate::registry::{self, Table};
+use crate::model::L;
 use crate::run::{hash_str, CaseResult, Ctx, Property, Tier};
 use crate::tape::Gen;
 use coset::iana::{self, EnumI64, WithPrivateRange};
@@ -10,51 +11,6 @@ use coset::{CborSerializable, Label, RegisteredLabel, RegisteredLabelWithPrivate
 use std::cmp::Ordering;
 use std::collections::BTreeSet;
 use std::sync::OnceLock;
-
-/// Abstract label.
-#[derive(Clone, Debug, PartialEq, Eq)]
-pub enum L {
-    Int(i64),
-    Text(String),
-}
-
-impl L {
-    /// Own deterministic encoding (RFC 8949 §4.2.1).
-    pub fn enc(&self) -> Vec<u8> {
-        let mut out = Vec::new();
-        match self {
-            L::Int(i) => {
-                if *i >= 0 {
-                    head(&mut out, 0, *i as u64)
-                } else {
-                    head(&mut out, 1, (-1 - (*i as i128)) as u64)
-                }
-            }
-            L::Text(t) => {
-                head(&mut out, 3, t.len() as u64);
-                out.extend_from_slice(t.as_bytes());
-            }
-        }
-        out
-    }
-    pub fn to_label(&self) -> Label {
-        match self {
-            L::Int(i) => Label::Int(*i),
-            L::Text(t) => Label::Text(t.clone()),
-        }
-    }
-    fn short(&self) -> String {
-        match self {
-            L::Int(i) => format!("{}", i),
-            L::Text(t) if t.len() <= 12 => format!("{:?}", t),
-            L::Text(t) => {
-                let first: String = t.chars().take(3).collect();
-                let last: String = t.chars().rev().take(2).collect::<Vec<_>>().into_iter().rev().collect();
-                format!("text[{}B {:?}…{:?}]", t.len(), first, last)
-            }
-        }
-    }
-}
 
 fn int_lattice() -> Vec<i64> {
     let mut v: Vec<i64> = vec![
